@@ -150,3 +150,47 @@ func registeredInFragments(fn *ssa.Function, v ssa.Value, ref ssa.Value) bool {
 	_ = token.NoPos
 	return false
 }
+
+// C01.FRAGTYPE: "__typename equal to the object's type name", "after expanding fragments that apply to the
+// object": the selections of a fragment that applies are made on the object the fragment was spread on:
+// the inline-fragment and spread resolvers hand their own container type parameter on to the selection
+// walker - never the fragment's condition type (inside `... on Named {}` the object is still a Band).
+func c01FragType(c *Ctx, r *Report, a *Anchors) {
+	r.rule("C01.FRAGTYPE", "the inline-fragment and fragment-spread resolvers pass their own container type parameter to the selection walker")
+	n := 0
+	for _, fn := range []*ssa.Function{a.inline, a.spread} {
+		if fn == nil || a.walker == nil {
+			continue
+		}
+		var tP *ssa.Parameter
+		for _, p := range fn.Params {
+			if c.isNamed(p.Type(), "Type") {
+				tP = p
+			}
+		}
+		k := 0
+		for _, ci := range callsIn(fn) {
+			if ci.Common().StaticCallee() != a.walker {
+				continue
+			}
+			n++
+			k++
+			r.fnSeen(fnName(fn))
+			ok := false
+			desc := ""
+			for _, arg := range ci.Common().Args {
+				if !c.isNamed(arg.Type(), "Type") {
+					continue
+				}
+				if stripIface(arg) == ssa.Value(tP) {
+					ok = true
+				} else {
+					desc = shortPath(vpath(arg))
+				}
+			}
+			r.check("C01.FRAGTYPE", fmt.Sprintf("%s: walker call #%d resolves the fragment's selections on the object's own type", fnName(fn), k), ci.Pos(), ok,
+				"the selections are resolved against "+desc+" instead of the container type this resolver was given: inside the fragment __typename reports the condition type and fragments on the object's concrete type no longer apply")
+		}
+	}
+	r.floor("C01.FRAGTYPE", "walker calls in the fragment resolvers", n, 2)
+}
